@@ -85,3 +85,26 @@ package store
 //@ ensures [errkind] !typeis(err, balance.LowBalanceError) && !typeis(err, pool.VerifyFailedError)
 //@ ensures [limit]   err == nil && limit > 0 ==> len(result) <= limit
 //@ modifies nothing
+
+//@ interface store.BalanceStore.GetAccountBalance(account) (result, err)
+//@ ensures [errkind] !typeis(err, balance.LowBalanceError) && !typeis(err, pool.VerifyFailedError)
+//@ ensures [value]   err == nil ==> bigval(result.Credit) == this.credit[string(account)] && bigval(result.Deposit) == this.deposit[string(account)]
+//@ modifies nothing
+
+//@ interface store.BalanceStore.AddAccountBalance(account, credit) (err)
+//@ requires credit != nil
+//@ ensures [errkind] !typeis(err, balance.LowBalanceError) && !typeis(err, pool.VerifyFailedError)
+//@ ensures [ok]      err == nil ==> this.credit == upd(old(this.credit), string(account), old(this.credit)[string(account)] + bigval(credit))
+//@                                  && this.total == old(this.total) + bigval(credit)
+//@                                  && this.loglen == old(this.loglen) + 1 && effects == old(effects) + 1
+//@ ensures [fail]    err != nil ==> this.credit == old(this.credit) && this.total == old(this.total) && this.loglen == old(this.loglen) && effects == old(effects)
+//@ modifies this.credit, this.total, this.loglen, effects
+
+//@ interface store.AccountStore.AddAccountNode(account, nodeID) (err)
+//@ ensures [errkind]  !typeis(err, balance.LowBalanceError) && !typeis(err, pool.VerifyFailedError)
+//@ ensures [zero-sum] this.total == old(this.total)
+//@ ensures [effect]   effects >= old(effects) && (err != nil ==> effects == old(effects) && this.credit == old(this.credit) && this.cell == old(this.cell))
+//@ modifies this.credit, this.cell, effects
+
+//@ interface store.AccountStore.GetAccountNodes(account) (result, err)
+//@ modifies nothing
